@@ -29,6 +29,8 @@ CHECKS = {
             "distinct node names are counted, no cache attached; D of large pairs is computed by the harness"),
     "C10": (MC, "7.C10", "TLC exhaustive run of MastCursor.tla (tree x start x every Forward/Backward sequence: Agrees, NoFailure; SeekOK for every probe of every layer) + TLC validation of recorded cursor walks and SeekIter runs against the sorted sequence (TraceCursor.tla)",
             "off-end is absorbing; the sorted sequence comes from the driver's bookkeeping"),
+    "C03": (MC, "7.C03", "TLC exhaustive run of Flush.tla (main / dispatcher / workers / reader as separate actions: every interleaving, completion order, failure subset and retry within the constants; liveness under weak fairness) + MakeRoot executions of the real code under a controlled Persist, schedules enumerated depth-first by re-execution, recorded and validated by TLC against TraceFlush.tla",
+            "schedules act through the caller-supplied Persist and Marshal only; unrealisable decisions end a branch; exhaustive within the constants"),
 }
 
 NOT_YET = {
